@@ -61,6 +61,12 @@ func gen(t *rapid.T) Script {
 		}
 		s.Conns = append(s.Conns, c)
 	}
+	if s.Trigger != "early" && rapid.IntRange(0, 19).Draw(t, "manyh2") == 0 {
+		// a busy proxy: hundreds of established HTTP/2 connections (which shutdown does not wait for) at the cancel
+		for i, m := 0, rapid.SampledFrom([]int{130, 257, 300}).Draw(t, "manyh2N"); i < m; i++ {
+			s.Conns = append(s.Conns, ConnAtCancel{Kind: "h2-idle", NReq: 1})
+		}
+	}
 	if s.Trigger == "cancel" || s.Trigger == "cancel-twice" || s.Trigger == "cancel-with-cause" {
 		s.AcceptDelayMs = rapid.SampledFrom([]int64{0, 0, 30, 1500}).Draw(t, "acceptDelay")
 		s.Burst = rapid.SampledFrom([]int{0, 0, 1, 2, 5, 12}).Draw(t, "burst")
